@@ -59,6 +59,11 @@ def run(ctx):
                         hs.append([{"op": "write", "n": n // 3}, {"op": "flush"}, {"op": "write", "n": n - n // 3}, {"op": "close"}])
                     if n > B and not q:
                         hs.append([{"op": "write", "n": 100}, {"op": "write", "n": n - 100}, {"op": "flush"}, {"op": "close"}])
+                    if n == 50 or (n > B and not q):
+                        # Flush / Close as the first call that touches the sink (a failure there hits the frame header), and a
+                        # caller who goes on after the failure: Flush again, Write, Close
+                        hs.append([{"op": "flush"}, {"op": "write", "n": n}, {"op": "close"}])
+                        hs.append([{"op": "flush"}, {"op": "flush"}, {"op": "write", "n": n}, {"op": "flush"}, {"op": "close"}, {"op": "close"}])
                     for h in hs:
                         oo = dict(o)
                         if size:
